@@ -156,4 +156,4 @@ NOT_APPLICABLE = {
 NOTES = ("Machine-checked proof in Lean 4 over executable models of gogreement's decision cores; models tied to /repo on every run by regenerated "
          "tables and behavioural correspondence (DESIGN.md). No hooks in /repo.")
 
-FIX_COMMITS = ['3280e36 fix: caret one column off when the reported column is the last one before the ellipsis', '35c9f1f fix: walk state of the immutable and constructor checkers leaked across declarations', '7f49659 fix: constructor exemption applied to same-named functions of other packages', '7021aae fix: uses of an annotated type through a type alias were not recognised', '38a6642 fix: parenthesised left-hand sides escaped the immutable checker', 'a8a7bf0 fix: standalone @ignore inside a body covered only the start of the next statement', '9fb907e fix: //line directive made an inline @ignore crash the analysis', '9bf6233 fix: @ignore trailing the last token of a declaration was applied to the next declaration', 'd39a5a2 fix: @ignore trailing a line that only opens a node was not treated as inline', "624ef86 fix: @implements qualifier was not resolved by the imported package's declared name", "f3928c9 fix: TONL02 reported for identifiers that merely share a @testonly function's name", '7e84306 fix: second @testonly type of the same name in one file was never reported', '175a664 fix: @implements compared parameter types by a lossy name/flag model instead of type identity', 'fd1c701 fix: value @implements rejected methods promoted through an embedded pointer', '21ad3b0 fix: @packageonly type embedded in a struct of another package was not reported', "4ae3089 fix: @implements accepted an unexported method of another package as implementing the interface's", '9f96eca fix: false IMPL03 for @implements on a defined interface type', '908de83 fix: @implements on an alias declaration is checked against the type the alias denotes', '2364578 fix: a message without source excerpt still carries the documentation link', "81854dd fix: a variable that shadows the receiver's name is not the receiver"]
+FIX_COMMITS = ['3280e36 fix: caret one column off when the reported column is the last one before the ellipsis', '35c9f1f fix: walk state of the immutable and constructor checkers leaked across declarations', '7f49659 fix: constructor exemption applied to same-named functions of other packages', '7021aae fix: uses of an annotated type through a type alias were not recognised', '38a6642 fix: parenthesised left-hand sides escaped the immutable checker', 'a8a7bf0 fix: standalone @ignore inside a body covered only the start of the next statement', '9fb907e fix: //line directive made an inline @ignore crash the analysis', '9bf6233 fix: @ignore trailing the last token of a declaration was applied to the next declaration', 'd39a5a2 fix: @ignore trailing a line that only opens a node was not treated as inline', "624ef86 fix: @implements qualifier was not resolved by the imported package's declared name", "f3928c9 fix: TONL02 reported for identifiers that merely share a @testonly function's name", '7e84306 fix: second @testonly type of the same name in one file was never reported', '175a664 fix: @implements compared parameter types by a lossy name/flag model instead of type identity', 'fd1c701 fix: value @implements rejected methods promoted through an embedded pointer', '21ad3b0 fix: @packageonly type embedded in a struct of another package was not reported', "4ae3089 fix: @implements accepted an unexported method of another package as implementing the interface's", '9f96eca fix: false IMPL03 for @implements on a defined interface type', '908de83 fix: @implements on an alias declaration is checked against the type the alias denotes', '2364578 fix: a message without source excerpt still carries the documentation link', "81854dd fix: a variable that shadows the receiver's name is not the receiver", 'b516a7f fix: an annotated method is recorded under the defined type of its receiver, however the receiver is written']
